@@ -6,10 +6,53 @@ package main
 import (
 	"fmt"
 	"go/constant"
+	"go/types"
 	"strings"
 
 	"golang.org/x/tools/go/ssa"
 )
+
+// round2Hooks runs the helpers of this file that belong to property id (called at the end of the property's rules).
+func round2Hooks(c *Ctx, id string) {
+	switch id {
+	case "C01":
+		sharedDeleteExact(c, "C01.g shared-delete-exact")
+	case "C02":
+		replayLoopExhaustive(c, "C02.g replay-exhaustive")
+	case "C03":
+		aliasRemapStored(c, "C03.g alias-remap")
+		resubscribeUpdatesList(c, "C03.h resubscribe-updates-session-copy")
+	case "C04":
+		resubscribeUpdatesList(c, "C04.f resubscribe-updates-session-copy")
+		identifiersBeforeStore(c, "C04.g identifiers-before-store")
+		sameNameCopies(c, "C04.h same-name-copies", c.optFn("mqtt", "(*Server).loadSubscriptions"))
+	case "C05":
+		replayLoopExhaustive(c, "C05.g replay-exhaustive")
+	case "C06":
+		sharedDeleteExact(c, "C06.h shared-delete-exact")
+	case "C08":
+		inheritedSessionRegistered(c, "C08.e inherited-session-registered")
+	case "C09":
+		inheritedSessionRegistered(c, "C09.f inherited-session-registered")
+	case "C14":
+		inheritedSessionRegistered(c, "C14.d inherited-session-registered")
+	case "C15":
+		resubscribeUpdatesList(c, "C15.g resubscribe-updates-session-copy")
+	case "C20":
+		var fs []*ssa.Function
+		fs = append(fs, c.optFn("mqtt", "(*Server).loadSubscriptions"), c.optFn("mqtt", "(*Server).loadClients"), c.optFn("hooks/storage", "(*Message).ToPacket"))
+		for _, b := range backends {
+			for _, m := range []string{"(*Hook).updateClient", "(*Hook).OnSubscribed", "(*Hook).OnRetainMessage", "(*Hook).OnQosPublish"} {
+				fs = append(fs, c.optFn(bpath(b), m))
+			}
+		}
+		sameNameCopies(c, "C20.f same-name-copies", fs...)
+	case "C24":
+		aliasRemapStored(c, "C24.d alias-remap")
+	case "C31":
+		sharedDeleteExact(c, "C31.e shared-delete-exact")
+	}
+}
 
 // shareClassifiersAgree: every place that decides "is this a shared-subscription filter" compares the WHOLE first
 // level of the filter with the share keyword: the operand compared with SharePrefix is isolateParticle(filter, 0)#0.
@@ -280,4 +323,229 @@ func websocketAPISurface(c *Ctx, rule string) {
 		}
 	}
 	c.floor(rule+" gorilla websocket call sites", n, 3)
+}
+
+// ---- second batch ----------------------------------------------------------------------------
+
+// sharedDeleteExact: SharedSubscriptions.Delete removes exactly the given member; the group entry goes only when the
+// group is empty afterwards.
+func sharedDeleteExact(c *Ctx, rule string) {
+	f := c.fn("mqtt", "(*SharedSubscriptions).Delete")
+	if f == nil {
+		return
+	}
+	var member, group ssa.CallInstruction
+	for _, ci := range c.callsNamed(f, "builtin.delete") {
+		if describe(ci.Common().Args[0]) == "s.internal" {
+			group = ci
+		} else {
+			member = ci
+		}
+	}
+	c.ob(rule, "(*mqtt.SharedSubscriptions).Delete deletes the given member from its group", c.pos(f.Pos()), member != nil && describe(member.Common().Args[1]) == "id", "")
+	if member != nil {
+		c.noPath(rule, "(*mqtt.SharedSubscriptions).Delete: every path on which the group exists removes the given member (and nothing else)", f, nil, anyReturn, isIns(member),
+			[]Assume{assumeHas("s.internal[group]#1", true)}, "a path that drops the group without looking at the member id removes another client's subscription")
+	}
+	if group != nil {
+		c.underFact(rule, "(*mqtt.SharedSubscriptions).Delete drops the group entry only when the group is empty", group, textHas("builtin.len(", "== 0"), true, "")
+		if member != nil {
+			c.ob(rule, "(*mqtt.SharedSubscriptions).Delete tests the group's size after removing the member", c.pos(group.Pos()), reachableFrom(member, group) && !reachableFrom(group, member), "")
+		}
+	}
+}
+
+// replayLoopExhaustive: the retained replay attempts every matching message: the loop over Topics.Messages is left
+// only when the messages are exhausted (a message that cannot be delivered does not cut the others off).
+func replayLoopExhaustive(c *Ctx, rule string) {
+	f := c.fn("mqtt", "(*Server).publishRetainedToClient")
+	if f == nil {
+		return
+	}
+	var head, body *ssa.BasicBlock
+	for _, b := range f.Blocks {
+		switch b.Comment {
+		case "rangeindex.loop", "rangeiter.loop":
+			if head == nil {
+				head = b
+			}
+		case "rangeindex.body", "rangeiter.body":
+			if body == nil {
+				body = b
+			}
+		}
+	}
+	if head == nil || body == nil {
+		c.ob(rule, "(*mqtt.Server).publishRetainedToClient iterates over the matching retained messages", c.pos(f.Pos()), false, "loop not found")
+		return
+	}
+	_, hit := (&PathQuery{Fn: f, From: body.Instrs[0], Target: anyReturn, Barrier: func(x ssa.Instruction) bool { return x == head.Instrs[0] }}).Find()
+	c.ob(rule, "(*mqtt.Server).publishRetainedToClient: the replay loop ends only when the matching messages are exhausted (no return/break inside an iteration)", c.pos(body.Instrs[0].Pos()), hit == nil,
+		"a message that cannot be delivered (ACL, full in-flight window, full queue) ends the replay: the remaining matching retained messages are never sent")
+}
+
+// inheritedSessionRegistered: inheritClientSession moves the old session's state into the connecting client and
+// empties the old object; from that point the new client is registered in Clients on every path — also when the
+// CONNACK cannot be written — otherwise the session (in-flight markers included) is lost.
+func inheritedSessionRegistered(c *Ctx, rule string) {
+	f := c.fn("mqtt", "(*Server).attachClient")
+	if f == nil {
+		return
+	}
+	inh := c.call1(f, "(*mqtt.Server).inheritClientSession")
+	if inh == nil {
+		c.ob(rule, "(*mqtt.Server).attachClient calls inheritClientSession", c.pos(f.Pos()), false, "site not found")
+		return
+	}
+	c.noPath(rule, "(*mqtt.Server).attachClient: after inheritClientSession the client is registered (Clients.Add) on every path, including a failed CONNACK", f, inh, anyReturn, isNamed(fnClientsAdd), nil,
+		"the inherited state lives only in the new client object: leaving without registering it drops the session, and a retransmitted QoS 2 publish is forwarded again")
+}
+
+// aliasRemapStored: a PUBLISH that carries both a topic and an alias (re)binds the alias: InboundTopicAliases.Set
+// stores the given topic on every path with a non-empty topic while aliases are enabled.
+func aliasRemapStored(c *Ctx, rule string) {
+	f := c.fn("mqtt", "(*InboundTopicAliases).Set")
+	if f == nil {
+		return
+	}
+	var mu *ssa.MapUpdate
+	for _, ins := range instrs(f) {
+		if m, ok := ins.(*ssa.MapUpdate); ok && describe(m.Map) == "a.internal" {
+			mu = m
+		}
+	}
+	c.ob(rule, "(*mqtt.InboundTopicAliases).Set stores topic under the alias", c.pos(f.Pos()), mu != nil && describe(mu.Key) == "id" && describe(mu.Value) == "topic", "")
+	if mu != nil {
+		c.noPath(rule, "(*mqtt.InboundTopicAliases).Set: a non-empty topic always replaces the alias binding (re-mapping)", f, nil, anyReturn, isIns(mu),
+			[]Assume{assumeEq("a.maximum == 0", false), assumeEq(`topic == ""`, false)}, "an alias re-used for another topic keeps pointing at the old one: later alias-only publishes go to the wrong subscribers")
+	}
+}
+
+// resubscribeUpdatesList: in processSubscribe every successful Topics.Subscribe is followed by the update of the
+// session's own copy (cl.State.Subscriptions.Add), whether the subscription is new or replaces an existing one:
+// the session copy is what a resumed session re-installs.
+func resubscribeUpdatesList(c *Ctx, rule string) {
+	f := c.fn("mqtt", "(*Server).processSubscribe")
+	if f == nil {
+		return
+	}
+	var head *ssa.BasicBlock
+	for _, b := range f.Blocks {
+		if b.Comment == "rangeindex.loop" && head == nil {
+			head = b
+		}
+	}
+	for _, ci := range c.callsNamed(f, "(*mqtt.TopicsIndex).Subscribe") {
+		_, hit := (&PathQuery{Fn: f, From: ci, Target: func(x ssa.Instruction) bool {
+			if _, isRet := x.(*ssa.Return); isRet {
+				return true
+			}
+			return head != nil && x == head.Instrs[0]
+		}, Barrier: func(x ssa.Instruction) bool {
+			cc := callOf(x)
+			return cc != nil && cname(cc) == "(*mqtt.Subscriptions).Add" && strings.HasSuffix(describe(cc.Args[0]), ".State.Subscriptions")
+		}}).Find()
+		c.ob(rule, "(*mqtt.Server).processSubscribe: after Topics.Subscribe the session's own copy is updated on every path (new or replaced subscription alike)", c.pos(ci.Pos()), hit == nil,
+			"a re-subscribe with other options changes the index but not the session copy; resuming the session re-installs the stale options")
+	}
+}
+
+// sameNameCopies: in a record-to-record copy (composite literal or field stores of a freshly built struct) a field F
+// whose value is read from a field of another struct that also HAS a field named F must be read from that F:
+// `RetainAsPublished: sub.NoLocal` type-checks when both are bools.
+func sameNameCopies(c *Ctx, rule string, fns ...*ssa.Function) {
+	n := 0
+	for _, f := range fns {
+		if f == nil {
+			continue
+		}
+		for _, ins := range instrs(f) {
+			st, ok := ins.(*ssa.Store)
+			if !ok {
+				continue
+			}
+			dst, ok := st.Addr.(*ssa.FieldAddr)
+			if !ok {
+				continue
+			}
+			if _, fresh := rootOfAddr(dst).(*ssa.Alloc); !fresh {
+				continue
+			}
+			v := st.Val
+			for {
+				if cv, isC := v.(*ssa.Convert); isC {
+					v = cv.X
+					continue
+				}
+				if ct, isC := v.(*ssa.ChangeType); isC {
+					v = ct.X
+					continue
+				}
+				break
+			}
+			var srcT types.Type
+			srcName := ""
+			switch x := v.(type) {
+			case *ssa.UnOp:
+				if fa, isFA := x.X.(*ssa.FieldAddr); isFA {
+					srcT, srcName = fa.X.Type(), fieldName(fa.X.Type(), fa.Field)
+				}
+			case *ssa.Field:
+				srcT, srcName = x.X.Type(), fieldName(x.X.Type(), x.Field)
+			}
+			if srcT == nil {
+				continue
+			}
+			if p, isP := srcT.Underlying().(*types.Pointer); isP {
+				srcT = p.Elem()
+			}
+			sst, isS := srcT.Underlying().(*types.Struct)
+			if !isS {
+				continue
+			}
+			dstName := fieldName(dst.X.Type(), dst.Field)
+			has := false
+			for i := 0; i < sst.NumFields(); i++ {
+				if sst.Field(i).Name() == dstName {
+					has = true
+				}
+			}
+			if !has {
+				continue
+			}
+			n++
+			c.ob(rule, fmt.Sprintf("%s: field %s is copied from the source's field of the same name", fname(f), dstName), c.pos(st.Pos()), srcName == dstName,
+				"copied from "+describe(v)+": two fields of the same type were swapped")
+		}
+	}
+	c.floor(rule+" same-name field copies", n, 5)
+}
+
+// identifiersBeforeStore: publishToClient attaches the subscription identifiers to the outgoing copy before that copy
+// is stored in the in-flight map or queued: deferred, resent and offline-queued deliveries are made from the stored copy.
+func identifiersBeforeStore(c *Ctx, rule string) {
+	f := c.fn("mqtt", "(*Server).publishToClient")
+	if f == nil {
+		return
+	}
+	var sts []*ssa.Store
+	for _, st := range storesTo(f, "out.Properties.SubscriptionIdentifier") {
+		sts = append(sts, st)
+	}
+	c.floor(rule+" stores of the subscription identifiers", len(sts), 1)
+	var sinks []ssa.Instruction
+	for _, ci := range c.callsNamed(f, fnInflSet) {
+		sinks = append(sinks, ci)
+	}
+	sinks = append(sinks, sendSites(f, "State.outbound")...)
+	for _, s := range sinks {
+		ok := len(sts) > 0
+		for _, st := range sts {
+			if reachableFrom(s, st) {
+				ok = false
+			}
+		}
+		c.ob(rule, fmt.Sprintf("(*mqtt.Server).publishToClient: the subscription identifiers are attached before the copy is stored or queued (%s)", guardKey(s)), c.pos(s.Pos()), ok,
+			"the stored copy is what a deferred delivery, a resend on session resume and an offline queue transmit: it would carry no identifiers")
+	}
 }
